@@ -303,7 +303,7 @@ def run(ctx: Ctx) -> int:
                     if isinstance(t, ast.Attribute) and t.attr == "required_args":
                         ok = fq == "_core:ArgumentParser.__init__" and not isinstance(s, ast.AugAssign)
                         ctx.oblige("C06.d", ok, s, "required_args is only created in ArgumentParser.__init__" if ok else "required_args is rebound outside ArgumentParser.__init__", fn=fn)
-    ctx.floor("C06.d-remove-sites", n_rm, 2)
+    ctx.floor("C06.d-remove-sites", n_rm, 2, defer=True)  # an edit that replaces a removal by a set difference is reported by the rebinding obligation above
     # get_class_parser removal is under linked_targets
     gcp = ctx.func("_typehints:ActionTypeHint.get_class_parser")
     for c in calls_in(gcp):
